@@ -172,6 +172,7 @@ func queueCrashExplore(tr *core.Trace, env *qenv.Env, b crashBudget) (*core.Trac
 
 // CheckC06: queue durability.
 func CheckC06(r *core.Run) {
+	defer explorePQ(r)()
 	r.Rule = "producer/consumer histories with close+reopen points; at every I/O boundary of the underlying file crash images are enumerated (all subsets of the un-synced writes up to the tier bound, else none/all/each single lost/each single kept/random), each is opened by the real code (file, delegate, queue) and drained with the real Reader; PQTrace.tla!CrashDrain requires the delivered events to be exactly flushed minus ACKed - or that with the one flush/ACK transaction in its commit applied completely -, in order, byte-identical, starting at the first un-ACKed event; reopen points are judged by CloseFlushes/ReopenPending/NoRedelivery; distinct = (history, crash point, drained state)"
 	n := r.Pick(12, 60)
 	cfgs := pqCfgs(r, "c06", n, func(i int, c *QCfg) {
